@@ -126,3 +126,13 @@ Proof.
 Qed.
 
 End Direct.
+
+Lemma try_sql_merge_inv sub tms deps m : try_sql_merge sub tms deps = Some (Ok m) ->
+  exists n0 ts s0 ci ds, sub = TUnary n0 (Some ts) s0 ci SfxNone true (Some ds) /\
+    contention (non_trivial_terms deps tms) (needs deps (non_trivial_terms deps tms)) (non_trivial_terms ds ts) (needs ds (non_trivial_terms ds ts)) = [] /\
+    m = TUnary n0 (Some (merged_terms (non_trivial_terms deps tms) tms deps ts)) s0 ci SfxNone true (Some (merged_deps (non_trivial_terms deps tms) tms deps ds)).
+Proof.
+  destruct sub as [nm tt|nm l s ci sfx mg dp|nm l s1 c1 j s2 c2 on]; simpl; try discriminate.
+  destruct sfx; try discriminate. destruct mg; try discriminate. destruct dp as [ds|]; try discriminate. destruct l as [ts|]; try discriminate.
+  destruct (contention _ _ _ _) eqn:C; try discriminate. intros [= <-]. exists nm, ts, s, ci, ds. split; [reflexivity|]. split; [exact C|reflexivity].
+Qed.
